@@ -2,6 +2,7 @@ import Genshi.Wire
 import Genshi.Model.Match
 import Genshi.Model.MatchPath
 import Genshi.Model.MatchLazy
+import Genshi.Model.MatchSpec
 namespace Driver.C12
 open Genshi Genshi.Match Genshi.Sexp
 
@@ -12,6 +13,7 @@ open Genshi Genshi.Match Genshi.Sexp
      spec := ( one name|N pos|N ) | ( chain ( ( name … ) … ) ) | ( generic ( ( child|desc|dos ( name n )|any|node ) … ) )
      bitem := ( S name ) | ( E name ) | ( T text ) | ( SEL dot|node|elems|text|nodeText ) | ( SEL named name )
   C12 lazy <fuel> ( item … )     the same through the automaton model (covers buffer="false")
+  C12 tree ( item … )             the specification: one tree rewrite per template (Model/MatchSpec.lean)
   answer: ( ok ( event … ) ( hits per registered template … ) ) | unmodelled | ( err fuel )
 -/
 
@@ -88,6 +90,47 @@ def allBuffered : List (Item PSt) → Bool
   | .reg t :: r => t.buffered && allBuffered r
   | _ :: r => allBuffered r
 
+/-- events of a well-nested stream as a forest (driver only) -/
+partial def toForest : List Event → List Node → List (QName × AttrList × List Node) → Option (List Node)
+  | [], acc, [] => some acc.reverse
+  | [], _, _ => none
+  | .start t a :: es, acc, stk => toForest es [] ((t, a, acc) :: stk)
+  | .end_ t :: es, acc, (t', a, up) :: stk =>
+      if t = t' then toForest es (Node.elem t a acc.reverse :: up) stk else none
+  | .end_ _ :: _, _, [] => none
+  | e :: es, acc, stk => toForest es (Node.leaf e :: acc) stk
+
+def splitDecls : List (Item PSt) → List (MT PSt) × List (Item PSt)
+  | .reg t :: r => let q := splitDecls r; (t :: q.1, q.2)
+  | r => ([], r)
+
+def itemEvents : List (Item PSt) → Option (List Event)
+  | [] => some []
+  | .ev e :: r => (itemEvents r).map (e :: ·)
+  | .reg _ :: _ => none
+
+def stages : List (MT PSt) → List Event → Option (List Event)
+  | [], es => some es
+  | t :: ts, es => do
+      let forest ← toForest es [] []
+      stages ts (specList t t.st [] forest)
+
+def specAnswer (items : List (Item PSt)) : Sexp :=
+  match items with
+  | .ev (.start root ra) :: rest =>
+    let (decls, content) := splitDecls rest
+    match itemEvents content with
+    | none => .atom "unmodelled"      -- a declaration after content
+    | some evs =>
+      match evs.reverse with
+      | .end_ root' :: revc =>
+        if root' != root || decls.any (fun t => t.once) then .atom "unmodelled" else
+        match stages decls revc.reverse with
+        | some out => .list [.atom "ok", .list ((Event.start root ra :: out ++ [Event.end_ root]).map evOut), .list []]
+        | none => .atom "unmodelled"
+      | _ => .atom "unmodelled"
+  | _ => .atom "unmodelled"
+
 def handle : List Sexp → Option Sexp
   | [.atom "run", fuel, .list items] => do
       let fuel ← fuel.toNat?
@@ -103,6 +146,11 @@ def handle : List Sexp → Option Sexp
       match runL fuel .idle items [] with
       | some (_, mts, out) => pure (.list [.atom "ok", .list (out.map evOut), .list (mts.map fun t => ofNat t.hits)])
       | none => pure (.list [.atom "err", .atom "fuel"])
+  | [.atom "tree", .list items] => do
+      -- the specification: one tree rewrite per template, in declaration order (declarations first,
+      -- no once, lawful matchers); answers `unmodelled` otherwise
+      let items ← items.mapM item?
+      pure (specAnswer items)
   | _ => none
 
 end Driver.C12
